@@ -842,17 +842,26 @@ func TestCheck(t *testing.T) {
 	}
 
 	if p := c.ReplayPath(); p != "" {
+		// re-run the witness' unit up to and including its case, in a child like the original
 		var w struct {
 			Witness witness `json:"witness"`
 		}
 		rig.ReadJSON(p, &w)
-		ri, ok := cat[w.Witness.Unit.RPC]
-		if !ok {
-			t.Fatalf("replay: unknown rpc %q", w.Witness.Unit.RPC)
+		u := w.Witness.Unit
+		if _, ok := cat[u.RPC]; !ok {
+			t.Fatalf("replay: unknown rpc %q", u.RPC)
 		}
+		if w.Witness.Idx >= 0 {
+			base := 0
+			if u.Mode == "grpc" {
+				base = grpcIdxBase
+			}
+			if n := w.Witness.Idx - base - u.From + 1; n > 0 && n < u.N {
+				u.N = n
+			}
+		}
+		units = []unit{u}
 		c.MinNontrivial = 0
-		runUnit(c, t, ri, w.Witness.Unit, 0, map[string]bool{}, w.Witness.Idx)
-		return
 	}
 
 	nChildren := c.N(32, 128)
